@@ -99,6 +99,8 @@ class Report:
     def floor(self, rule: str, minimum: int) -> None:
         """Fail the run (exit 2) if a rule examined fewer instances than confirmed by hand."""
         n = self.rule_counts.get(rule, 0)
+        if any(f.rule == rule for f in self.findings):
+            return  # a concrete violation of this rule was found: report that, not the thinner instance count
         if n < minimum:
             from .prog import AnalysisError
             raise AnalysisError(f"{rule}: only {n} instance(s) examined, at least {minimum} were "
